@@ -378,6 +378,10 @@ WebSocketMsg WebSocket::receive()
 		case 10: // pong
 			buffer.clear();
 			break;
+		default: // reserved opcode: protocol error (RFC 6455 5.2); it must not end or split a message
+			_closed = true;
+			_socket.close();
+			return WebSocketMsg().fix();
 		}
 
 		if (fin && (opcode < 8 || !partial)) // a control frame between fragments does not end the message
